@@ -113,6 +113,7 @@ def run(ctx):
         _lookuperr(ctx, cfg, prog, mod)
         _eqorder(ctx, cfg, prog, mod)
         _seqarity(ctx, cfg, prog, mod)
+        _readfinite(ctx, cfg, prog, mod)
         _gates(ctx, cfg, prog, mod)
     return ctx.finish(EXPLANATION)
 
@@ -196,6 +197,39 @@ def _seqarity(ctx, cfg, prog, mod):
                    'reachable without any comparison with the arity D: a coordinate array that is too short is loaded, the missing '
                    'coordinates keep their initial value'), site=site)
     ctx.floor('visit_seq readers in the crate', 1, n, cfg)
+
+
+def _readfinite(ctx, cfg, prog, mod):
+    """READFINITE: `Point`'s reader deliberately parses `null`, "NaN", "Infinity", "-inf" into non-finite values (so that
+    a Point round-trips); the *Vertex* reader is what keeps them out of a triangulation.  Every Ok exit of the Vertex
+    reader's `visit_map` lies behind the success edge of a finiteness validation of the point (`Coordinate::validate`,
+    `Vertex::is_valid`), or the body tests `is_finite` on the coordinates (a test for NaN alone lets +-inf through)."""
+    import gate
+    import tables
+    ctx.rule('READFINITE', 'the Vertex reader refuses every non-finite coordinate')
+    lv = gate.Leaves(prog)
+    n = 0
+    for q, b in sorted(prog.bodies.items()):
+        if b.kind == 'closure' or not q.endswith('::visit_map') or 'core::vertex::Vertex<' not in q or not b.file.startswith('src/'):
+            continue
+        n += 1
+        r = gate.must_pass(prog, lv, b, {tables.L1_COORD}, mode='any')
+        r2 = gate.must_pass(prog, lv, b, {'core::vertex::Vertex::is_valid'}, mode='any')
+        names = set()
+        for bq in [q] + list(prog.children.get(q, [])):
+            bb_ = prog.bodies.get(bq)
+            if bb_ is not None:
+                names |= {(t.callee or t.resolved or '').rsplit('::', 1)[-1] for _, t in bb_.calls()}
+        ok = r['ok'] or r2['ok'] or 'is_finite' in names
+        ctx.ob('READFINITE', q, cfg, ok,
+               'Ok of the Vertex reader %s' % (
+                   'lies behind Coordinate::validate' if r['ok'] else 'lies behind Vertex::is_valid' if r2['ok'] else
+                   'tests is_finite on the coordinates' if ok else
+                   'is reachable without a finiteness validation of the point (%s): a coordinate written as "Infinity" / "-inf" is '
+                   'loaded, and only Level 1 of a later validate() notices' % ('only is_nan is tested' if 'is_nan' in names else
+                                                                                'no finiteness test at all')),
+               site='%s:%d' % (b.file, b.line))
+    ctx.floor('Vertex reader (visit_map)', 1, n, cfg)
 
 
 def _sentinel(ctx, cfg, prog, mod):
